@@ -392,7 +392,7 @@ def _worker(arg):
 
 def main(tier: str) -> int:
     run = common.Run(PROP, tier)
-    n = 200 if tier == 'quick' else 5000
+    n = 200 if tier == 'quick' else 20000
     run.require('process_calls_compared', 'repeats_on_same_instance', 'interleavings',
                 'load_file_calls', 'child_references', 'no_document_refusals')
     for item, res in run.pmap(_worker, [(run.seed, i) for i in range(n)], chunksize=2):
